@@ -63,6 +63,9 @@ pub enum Profile {
     Deep,
     /// Deep plus hand-overs of the arena to another thread (C20)
     DeepHop,
+    /// large sizes: chunks of 4 KiB .. 1 MiB, requests of 64 KiB and more, alignments of 4096 and 8192,
+    /// blocks of 70 000 bytes grown / shrunk / freed, limits in the hundreds of kilobytes
+    Scale,
     /// C16: panicking callbacks inside arena methods
     Panics,
     /// allocator-API sweep: every finger offset x block size/alignment x shrink/grow to every size and
@@ -114,6 +117,10 @@ impl ArenaModel {
     fn run_m<const M: usize>(&self, w: &mut Worker, h: &Hist<Cfg, Act>, want_enabled: bool, trace: bool) -> (RunOut<Act>, Vec<String>) {
         let envp: *mut crate::env::ExecEnv = &mut *w.env;
         unsafe { (*envp).begin_execution() };
+        if self.profile == Profile::Scale {
+            // chunks up to a quarter of the slab are served
+            unsafe { (*envp).policy.cap = (*envp).slabs[0].size / 4 };
+        }
         if crate::util::static_dirty() {
             crate::util::restore_static();
         }
@@ -683,6 +690,42 @@ impl ArenaModel {
                     a.push(Act::SetLimit { some: true, val: held_usable + 1000 });
                 }
             }
+            Profile::Scale => {
+                lay(&mut a, true, &[8, 4033, 70_001, 100_000, 300_001], &[0, 4]);
+                if cap > 0 {
+                    lay(&mut a, true, &[cap, cap + 1], &[0]);
+                }
+                lay(&mut a, true, &[100, 10_000, 70_000], &[12, 13]);
+                lay(&mut a, false, &[70_001], &[0]);
+                a.push(Act::Allocate { size: 70_000, al: 0 });
+                a.push(Act::Allocate { size: 4096, al: 3 });
+                if nraw > 0 {
+                    let (s0, a0) = raw_sz(0).unwrap();
+                    let a0l = crate::util::log2(a0).min(13);
+                    a.push(Act::Dealloc { h: 0 });
+                    a.push(Act::Shrink { h: 0, new_size: s0 / 2, al: a0l });
+                    a.push(Act::Grow { h: 0, new_size: s0 + 8, al: a0l, zeroed: false });
+                    a.push(Act::Grow { h: 0, new_size: s0 * 2 + 1, al: a0l, zeroed: true });
+                    a.push(Act::Grow { h: 0, new_size: s0 + 70_000, al: a0l, zeroed: false });
+                }
+                a.push(Act::Slice { m: SM::FillCopy, el: El::U8, len: 70_001, fail_at: NO_FAIL, inner: Inner::Nothing });
+                a.push(Act::Slice { m: SM::InitTryFillWith, el: El::U64, len: 9000, fail_at: 1, inner: Inner::Nothing });
+                a.push(Act::Slice { m: SM::InitTryFillWith, el: El::U64, len: 9000, fail_at: 1, inner: Inner::AllocKeep });
+                a.push(Act::TryWith { fallible: false, ty: Ty::B5000, ok: false, inner: Inner::Nothing, probe: last, esz: 3 });
+                a.push(Act::TryWith { fallible: true, ty: Ty::B5000, ok: false, inner: Inner::AllocKeep, probe: false, esz: 0 });
+                a.push(Act::Str { fallible: true, len: 70_001 });
+                a.push(Act::Reset { probe: false });
+                if last {
+                    a.push(Act::Reset { probe: true });
+                    a.push(Act::CapProbe);
+                }
+                if p.limit.is_some() {
+                    a.push(Act::SetLimit { some: false, val: 0 });
+                } else {
+                    a.push(Act::SetLimit { some: true, val: held_usable });
+                    a.push(Act::SetLimit { some: true, val: held_usable + 200_000 });
+                }
+            }
             Profile::ApiSweep => {
                 let m = M;
                 match depth {
@@ -736,6 +779,14 @@ impl ArenaModel {
             }
             Profile::Panics => {
                 if last {
+                    for which in [14u8, 15] {
+                        // slices that fit the chunk and slices that force a new one; panic at element 0..5 (or never)
+                        for len in [6usize, cap / 8 + 6] {
+                            for at in 0..6u8 {
+                                a.push(Act::PanicCb { which, len, at });
+                            }
+                        }
+                    }
                     for which in 0..14u8 {
                         let lens: &[usize] = if which <= 3 { &[1] } else { &[0, 1, 3, cap / 16 + 1] };
                         for &len in lens {
@@ -877,6 +928,7 @@ impl Model for ArenaModel {
         let caps: Vec<usize> = match self.profile {
             Profile::Ledger | Profile::Fallible => vec![1, 449, 4033],
             Profile::Reset | Profile::CapProbe => vec![1, 65, 449],
+            Profile::Scale => vec![4033, 70_000, 300_000],
             _ => vec![1, 449],
         };
         for &m in &self.min_aligns {
